@@ -245,30 +245,36 @@ def ob_d(d: int, pos: int, ins: int) -> bool:
     return _d_body(di, choose(pos, n - 2), choose(ins, len(INSERTS)))
 
 
+def _short(t):
+    return t if len(t) < 600 else t[:300] + ' ... [%d characters] ... ' % len(t) + t[-200:]
+
+
 @native
 def _doc_fixed_point(text, heads):
-    doc, errs = kp.loads(text)
+    full_text = text
+    doc, errs = kp.loads(full_text)
+    text = _short(text)
     check(not errs, f'import errors {[str(e) for e in errs]} on {text!r}')
     t1 = kp.dumps(doc, spine_types=heads)
     doc1, errs1 = kp.loads(t1)
-    check(not errs1, f'default export {t1!r} of {text!r} does not re-import cleanly: {[str(e) for e in errs1]}')
+    check(not errs1, f'default export {_short(t1)!r} of {text!r} does not re-import cleanly: {[str(e) for e in errs1]}')
     t2 = kp.dumps(doc1, spine_types=heads)
-    check(t2 == t1, f'{text!r}: export {t1!r} re-exports as {t2!r}')
+    check(t2 == t1, f'{text!r}: export {_short(t1)!r} re-exports as {_short(t2)!r}')
     # one Exporter object used for the extended and then for the default export answers like fresh ones
     from kernpy.core.exporter import Exporter, ExportOptions
     ex = Exporter()
     e_first = ex.export_string(doc, ExportOptions(spine_types=list(heads), kern_type=kp.Encoding.eKern))
     k_second = ex.export_string(doc, ExportOptions(spine_types=list(heads)))
     check(k_second == t1 and e_first == kp.dumps(doc, spine_types=heads, encoding=kp.Encoding.eKern),
-          f'{text!r}: one Exporter used for ekern then kern gives {k_second!r}, a fresh default export {t1!r}')
+          f'{text!r}: one Exporter used for ekern then kern gives {_short(k_second)!r}, a fresh default export {_short(t1)!r}')
     if '**kern' in heads:
         # the extended route is taken over the **kern spines: get_kern_from_ekern renames only the **ekern header back
         e1 = kp.dumps(doc, spine_types=['**kern'], encoding=kp.Encoding.eKern)
         k = kp.get_kern_from_ekern(e1)
         dock, errsk = kp.loads(k)
-        check(not errsk, f'{text!r}: ekern -> kern text {k!r} does not re-import cleanly')
+        check(not errsk, f'{text!r}: ekern -> kern text {_short(k)!r} does not re-import cleanly')
         e2 = kp.dumps(dock, spine_types=['**kern'], encoding=kp.Encoding.eKern)
-        check(e2 == e1, f'{text!r}: extended export {e1!r} -> kern -> extended gives {e2!r}')
+        check(e2 == e1, f'{text!r}: extended export {_short(e1)!r} -> kern -> extended gives {_short(e2)!r}')
     return True
 
 
@@ -304,6 +310,22 @@ def _e_body(i):
     return _doc_fixed_point(sp.to_text(rows), sorted(set(heads)))
 
 
+LONG = ((300, 0), (1200, 600), (4000, 37))     # (data rows, data row at which the kern spine splits for three rows; 0 = never)
+
+
+def ob_f(k: int) -> bool:
+    n = ctx.pick(2, 3)
+    assume(0 <= k < n)
+    return _f_body(choose(k, n))
+
+
+@native
+def _f_body(k):
+    from sv.ref import longdoc
+    D = longdoc.long_doc(LONG[k][0], True, LONG[k][1])
+    return _doc_fixed_point(D.text(), ['**kern', '**text'])
+
+
 def _desc_a(grid, k):
     return {'cell': _cell(grid, k).source()}
 
@@ -332,6 +354,11 @@ OBLIGATIONS = [
        shard_of=lambda d, pos, ins: pos, shards={'quick': 8, 'thorough': 8}, budget_s={'quick': 120, 'thorough': 600},
        witnesses=[{'d': 0, 'pos': 2, 'ins': 1}], min_confirmed=100, enumerated='document, insertion position, inserted row kind',
        bounds={'quick': '6 pool documents x every row position x {nothing, ". row", "* row", global comment}', 'thorough': 'same'}),
+    Ob(id='C01.f', fn=ob_f, title='document fixed point on long scores (hundreds to thousands of lines)',
+       shard_of=lambda k: k, shards={'quick': 2, 'thorough': 3}, budget_s={'quick': 120, 'thorough': 600}, native_body=True,
+       witnesses=[{'k': 0}], min_confirmed=2, enumerated='score length',
+       bounds={'quick': 'kern + text scores of 300 and 1200 data rows (392 / 1555 lines) with barlines, rests, dotted and decorated notes, field and global comments, one split + join',
+               'thorough': '+ 4000 data rows (about 5200 lines)'}),
     Ob(id='C01.e', fn=ob_e, title='document fixed point over spine-operator layouts (1-4 spines, split and join)',
        shard_of=lambda layout: layout, shards={'quick': 8, 'thorough': 16}, budget_s={'quick': 120, 'thorough': 1800},
        witnesses=[{'layout': 0}], min_confirmed=100, enumerated='layout selector',
